@@ -18,6 +18,9 @@ fn kind_ok(name: &str, v: &VerifValue) -> bool {
 
 /// The invariant. Returns a description of the first clause that fails.
 pub fn invariant(s: &VerifState) -> Option<String> {
+    if s.nesting_depth != 0 {
+        return Some(format!("nesting depth {} between host calls", s.nesting_depth));
+    }
     if s.stack.len() > 32 {
         return Some(format!("{} frames on the stack", s.stack.len()));
     }
@@ -80,7 +83,7 @@ fn idle_lines() -> Vec<&'static str> {
         "8 DEF FNC(Y)=FNC(Y)", "PRINT FNC(1)",
         "PRINT FNA(1)", "PRINT FNA(\"s\")", "PRINT FNB(\"s\")", "PRINT FNB(1)", "RUN", "CONT", "GOTO 30", "GOTO 5",
         "PRINT B(1)", "PRINT C$(1,1)", "PRINT D(1,1,1)", "PRINT E(1,1,1,1)", "DIM F(99)", "DIM G$(9,9)",
-        "DIM H(4294967295,4294967295)", "READ A(1)", "READ A$(1)", "INPUT X",
+        "DIM H(4294967295,4294967295)", "READ A(1)", "READ A$(1)", "INPUT X", "IF 1 THEN PRINT 1/0", "IF 0 THEN PRINT 1 ELSE RETURN", "PRINT ((1/0))", "9 IF X=0 THEN PRINT (1/X)", "GOTO 9",
     ]
 }
 
